@@ -15,6 +15,10 @@ TRUSTED = ["verus 0.2026.09.13 + z3", "A-fmt (R4)", "every generator the dispatc
            "the source-listing block at the head of the function (insert_code: comments only) is a stub without effect on the log"]
 
 SPECS = """
+use vstd::std_specs::hash::*;
+use std::collections::HashMap;
+#[verifier::external_body]
+pub proof fn axiom_string_key_model() ensures obeys_key_model::<String>() {}
 pub struct Error { pub e: u8 }
 %(types)s
 pub struct CompilerState { pub x: u8 }
@@ -25,10 +29,20 @@ pub enum Ev {
     Switch(Expr, Vec<(Vec<i32>, Vec<StatementLoc>)>), Break, Continue, Return(Expr), Asm(Seq<char>, Option<u32>), Strobe(Expr), Transfer(ExprType, bool), CSleep(i32), Goto(Seq<char>),
 }
 pub uninterp spec fn operand_of(e: Expr) -> ExprType;
+// R6 shim of AssemblyCode: whether anything has been generated for the function yet
+pub struct AssemblyCode { pub empty: bool }
+impl AssemblyCode { #[verifier::external_body] pub fn is_empty(&self) -> (r: bool) ensures r == self.empty { unimplemented!() } }
 pub struct GeneratorState<'a> {
     pub compiler_state: &'a CompilerState,
     pub acc_in_use: bool, pub tmp_in_use: bool, pub insert_code: bool,
+    pub flags: FlagsState, pub carry_flag_ok: bool,
+    pub current_function: Option<String>,
+    pub functions_code: HashMap<String, AssemblyCode>,
     pub log: Ghost<Seq<Ev>>,
+    pub at_function_entry: Ghost<bool>,      // nothing has been generated yet for the function being compiled
+}
+pub open spec fn entering(g: &GeneratorState) -> bool {
+    g.current_function is Some && g.functions_code@.contains_key(g.current_function->Some_0) && g.functions_code@[g.current_function->Some_0].empty
 }
 // ---- the source order -----------------------------------------------------------------------------------------------------------------------
 pub open spec fn label_ev(c: StatementLoc) -> Seq<Ev> { match c.label { Some(l) => seq![Ev::Label("."@ + l@)], None => Seq::<Ev>::empty() } }
@@ -62,13 +76,18 @@ pub open spec fn block_ev(v: Seq<StatementLoc>, n: int) -> Seq<Ev> decreases v, 
 STUBS = """
     #[verifier::external_body] fn insert_source_comment_block(&mut self, pos: usize) -> (res: Result<(), Error>)
         ensures final(self).compiler_state == old(self).compiler_state, final(self).log@ == old(self).log@, final(self).acc_in_use == old(self).acc_in_use, final(self).tmp_in_use == old(self).tmp_in_use,
+            final(self).flags == old(self).flags, final(self).carry_flag_ok == old(self).carry_flag_ok, final(self).at_function_entry@ == old(self).at_function_entry@,
     { unimplemented!() }
     #[verifier::external_body] fn purge_deferred_plusplus_and_savey(&mut self) -> (res: Result<(), Error>)
         ensures final(self).compiler_state == old(self).compiler_state, res is Ok ==> final(self).log@ == old(self).log@.push(Ev::Purge),
+            // flushing a deferred ++/-- emits code only if there is one: at a function's entry there is none (the flags belief may only change towards what that code left)
+            old(self).at_function_entry@ ==> final(self).flags == old(self).flags && final(self).carry_flag_ok == old(self).carry_flag_ok && final(self).at_function_entry@,
+            !old(self).at_function_entry@ ==> !final(self).at_function_entry@,
     { unimplemented!() }
     #[verifier::external_body] pub(crate) fn label(&mut self, l: &str) -> (res: Result<(), Error>)
         ensures final(self).compiler_state == old(self).compiler_state, final(self).acc_in_use == old(self).acc_in_use, final(self).tmp_in_use == old(self).tmp_in_use,
             res is Ok ==> final(self).log@ == old(self).log@.push(Ev::Label(l@)),
+            final(self).flags is Unknown && !final(self).carry_flag_ok, final(self).at_function_entry@ == false,      // a label forgets the belief (generate_asm.rs: label())
     { unimplemented!() }
 %(gens)s
 """
@@ -94,10 +113,23 @@ GENS = [
 
 HEADER = """#[verifier::exec_allows_no_decreases_clause]
 pub fn generate_statement(&mut self, code: &StatementLoc) -> (res: Result<(), Error>)
+        requires old(self).at_function_entry@ ==> (entering(old(self)) || (old(self).flags is Unknown && !old(self).carry_flag_ok)),
         ensures
             final(self).compiler_state == old(self).compiler_state,
             res is Ok ==> final(self).log@ =~= old(self).log@ + gen_ev(*code), //@ C18,C01:statements-generated-once-in-source-order
+            res is Ok ==> (final(self).at_function_entry@ ==> final(self).flags is Unknown && !final(self).carry_flag_ok),
 """
+
+
+def candidates(f):
+    """the first statement of a function compiled after another one tests what that other function left the generator believing about the flags"""
+    out = []
+    for v in (0, 3):
+        out.append({"source": "unsigned char k, v; void f() { v = 0; }\nvoid main() { if (v) k = 1; }\n", "args": ["-O0"], "expect": {"panic": False},
+                    "simulate": {"init": {"v": v, "k": 0}, "expect": {"k": int(v != 0)}, "stack_empty": True}, "note": "main starts with `if (v)` after f ended with a store to v, v=%d" % v})
+        out.append({"source": "unsigned char k; void f() { X = 1; }\nvoid main() { if (X) k = 1; }\n", "args": ["-O0"], "expect": {"panic": False},
+                    "simulate": {"init": {"k": 0}, "x": v, "expect": {"k": int(v != 0)}, "stack_empty": True}, "note": "main starts with `if (X)` after f ended with a load of X, X=%d" % v})
+    return out
 
 
 def build(repo):
@@ -109,7 +141,7 @@ def build(repo):
     comp = SourceFile(repo, "src/compile.rs")
     f = gs.fn("generate_statement", within="GeneratorState")
     cuts, tys = [f], []
-    for sf, kind, name, structural in ((comp, "enum", "Operation", True), (gm, "enum", "ExprType", False), (comp, "enum", "Expr", False), (comp, "enum", "Statement", False), (comp, "struct", "StatementLoc", False)):
+    for sf, kind, name, structural in ((comp, "enum", "Operation", True), (gm, "enum", "ExprType", False), (gm, "enum", "FlagsState", False), (comp, "enum", "Expr", False), (comp, "enum", "Statement", False), (comp, "struct", "StatementLoc", False)):
         c = sf.item(kind, name)
         common.r2(c, structural=structural)
         c.sub(r"pub\(crate\) enum", "pub enum", "R2-pub")
@@ -135,11 +167,14 @@ def build(repo):
     f.sub(r"Some\(ebody\.as_ref\(\)\)", "Some(&**ebody)", "R3 Box::as_ref -> explicit deref", expect=(0, 2))
     f.sub(r"generate_goto_statement\(s\)", "generate_goto_statement(s.as_str())", "R2 (Goto carries a String in the shim)", expect=(0, 1))
     f.set_header(HEADER, expect_sig="pub fn generate_statement(&mut self, code: &'a StatementLoc<'a>) -> Result<(), Error>")
-    f.body_start("        let ghost log0 = self.log@;\n        proof { reveal_strlit(\".\"); }")
+    f.body_start("        let ghost log0 = self.log@;\n        proof { reveal_strlit(\".\"); axiom_string_key_model(); }")
+    # the first code of a function is generated without any belief about N/Z and the carry: what the previous function left in them says nothing here
+    f.before(r"^\s*match &code\.statement \{", "        proof { assert(self.at_function_entry@ ==> (self.flags is Unknown && !self.carry_flag_ok)); //@ C01,C02:function-entry-forgets-flags\n        }")
     f.loop_spec(1, r"^for __n in 0\.\.statements\.len\(\)$", """
                     invariant
                         self.compiler_state == old(self).compiler_state,
                         self.log@ =~= log0 + seq![Ev::Purge] + label_ev(*code) + block_ev(statements@, __n as int), //@ C18,C01:block-statements-in-order
+                        self.at_function_entry@ ==> (self.flags is Unknown && !self.carry_flag_ok),
 """)
     gens = []
     for name, params, ret, ev, extra_req, extra_ens in GENS:
@@ -147,6 +182,7 @@ def build(repo):
         requires (!old(self).acc_in_use && !old(self).tmp_in_use) || %(free_ok)s, //@ C01:statement-generated-with-free-accumulator-and-scratch
             %(extra_req)s,
         ensures final(self).compiler_state == old(self).compiler_state, res is Ok ==> final(self).log@ == old(self).log@.push(%(ev)s), res is Ok ==> %(extra_ens)s,
+            final(self).at_function_entry@ == false,
     { unimplemented!() }""" % {"name": name, "params": params, "ret": ret, "ev": ev, "extra_req": extra_req, "extra_ens": extra_ens, "free_ok": "true" if name == "generate_load_store_statement" else "false"})
     text = common.PRELUDE + common.header_comment(NAME, cuts) + "verus! {\n" + (SPECS % {"types": "\n".join(tys)}) + fm.text() + \
         "impl<'a> GeneratorState<'a> {\n" + (STUBS % {"gens": "\n".join(gens)}) + f.text + "\n}\n" + common.CANARY + "\n} // verus!\n"
